@@ -596,6 +596,54 @@ func c04rleForeign(r *rand.Rand, w int, vals []uint32) []byte {
 	return out
 }
 
+// c04rleForeignBoolRuns writes a BOOLEAN page body directly from a random run list, the way other
+// writers (parquet-java, arrow, duckdb) lay booleans out: RLE runs of any length (so runs start and
+// end at any bit offset) with `true` stored as 01 or FF, mixed with bit-packed runs of 8g values.
+// Returns the body and the values it encodes (padding of bit-packed runs included, they are values).
+func c04rleForeignBoolRuns(r *rand.Rand) (body []byte, vals []uint32) {
+	put := func(u uint64) {
+		var b [10]byte
+		body = append(body, b[:binary.PutUvarint(b[:], u)]...)
+	}
+	lens := []int{1, 2, 3, 4, 5, 7, 8, 9, 15, 16, 17, 23, 24, 25, 63, 64, 65, 127, 128, 129}
+	nruns := 1 + r.Intn(6)
+	for k := 0; k < nruns; k++ {
+		if r.Intn(3) == 0 {
+			g := 1 + r.Intn(3)
+			put(uint64(g)<<1 | 1)
+			for j := 0; j < g; j++ {
+				b := byte(r.Intn(256))
+				if r.Intn(3) == 0 {
+					b = []byte{0x00, 0xFF, 0x01, 0x80}[r.Intn(4)]
+				}
+				body = append(body, b)
+				for t := 0; t < 8; t++ {
+					vals = append(vals, uint32(b>>uint(t))&1)
+				}
+			}
+			continue
+		}
+		n := lens[r.Intn(len(lens))]
+		if r.Intn(3) == 0 {
+			n = 1 + r.Intn(200)
+		}
+		bit := uint32(r.Intn(2))
+		put(uint64(n) << 1)
+		switch {
+		case bit == 0:
+			body = append(body, 0x00)
+		case r.Intn(2) == 0:
+			body = append(body, 0x01)
+		default:
+			body = append(body, 0xFF)
+		}
+		for j := 0; j < n; j++ {
+			vals = append(vals, bit)
+		}
+	}
+	return body, vals
+}
+
 func c04rleWrap(kind string, w int, body []byte) []byte {
 	switch kind {
 	case "bool":
@@ -933,7 +981,22 @@ func c04rleDecMirror(ctx *core.Ctx, b *c04rleBatch, kind string, w int, stream [
 	case "dict":
 		req = "rle.godecdict " + hexS
 	case "bool":
-		req = "rle.godecbool " + hexS
+		// the BYTE-level mirror (appendBitsAt / appendBitRun / resize over a destination whose spare
+		// capacity holds the given byte); proved equal to the bit-level mirror rle.godecbool, which
+		// is still asked on a quarter of the streams
+		req = fmt.Sprintf("rle.godecboolbytes %d %s", []int{0, 255, 0xA5}[len(stream)%3], hexS)
+		if len(stream)%4 == 0 {
+			b.ask("rle.godecbool "+hexS, func(ans string) {
+				if strings.HasPrefix(ans, "err") {
+					ans = "err"
+				}
+				if ans != impl {
+					ctx.Fail("L2", "rle-decode-mirror-bool-bitlevel", "Go DecodeBoolean differs from the bit-level Lean mirror",
+						map[string]any{"kind": kind, "stream": hexS, "impl": impl, "model": ans, "variant": ctx.Variant,
+							"replay_case": fmt.Sprintf("rle-dec %s %d %s", kind, w, hexS)})
+				}
+			})
+		}
 	default:
 		return
 	}
@@ -1172,11 +1235,57 @@ func c04rleBitpackedCase(ctx *core.Ctx, r *rand.Rand, bufs *c04rleBufs, b *c04rl
 		ctx.Fail("L1", "bitpacked-decode-foreign-stream", "Go BIT_PACKED decoder misreads the conformant (MSB-first) encoding of the values: "+fst,
 			c04rleDetail(c, ctx.Variant, map[string]any{"stream": core.Hex(foreign), "decoded": core.JoinInts(fdec)}))
 	}
+	c04rleBitpackedDecodeCase(ctx, r, bufs, b, c.w, foreign)
+	if r.Intn(4) == 0 {
+		// BIT_PACKED has no freedom: any byte string is the encoding of the floor(8*len/w) values it holds
+		raw := make([]byte, 1+r.Intn(40))
+		for i := range raw {
+			raw[i] = byte(r.Intn(256))
+			if r.Intn(4) == 0 {
+				raw[i] = []byte{0x00, 0xFF, 0x80, 0x01}[r.Intn(4)]
+			}
+		}
+		c04rleBitpackedDecodeCase(ctx, r, bufs, b, c.w, raw)
+	}
 	dec, dst := c04rleGoDecode(r, bufs, "bitpacked", c.w, enc)
 	if dst != "" || len(dec) < len(c.vals) || !c04rleEqU32(dec[:len(c.vals)], c.vals) {
 		ctx.Fail("L1", "bitpacked-go-roundtrip", "DecodeLevels(EncodeLevels(xs)) does not start with xs: "+dst,
 			c04rleDetail(c, ctx.Variant, map[string]any{"encoded": hexEnc, "decoded": core.JoinInts(dec)}))
 	}
+}
+
+// c04rleBitpackedDecodeCase: the Go BIT_PACKED decoder on an arbitrary byte string (width 1..8, dirty
+// dst): L1 against the Lean SPEC decoder on the n = floor(8*len/w) values the string holds, L2
+// against the mirror of decodeLevels (goDecodeBitPacked) on everything it returns, the value of the
+// trailing partial bits included.
+func c04rleBitpackedDecodeCase(ctx *core.Ctx, r *rand.Rand, bufs *c04rleBufs, b *c04rleBatch, w int, stream []byte) {
+	if w < 1 || w > 8 || len(stream) == 0 {
+		return
+	}
+	hexS := core.Hex(stream)
+	ctx.Case("bitpacked-dec "+strconv.Itoa(w)+" "+hexS, 8*len(stream) >= 8*w)
+	ctx.Hist("bitpacked.decode", "w="+strconv.Itoa(w))
+	dec, st := c04rleGoDecode(r, bufs, "bitpacked", w, stream)
+	detail := map[string]any{"kind": "bitpacked", "bit_width": w, "stream": hexS, "decoded": core.JoinInts(dec), "status": st, "variant": ctx.Variant,
+		"replay_case": fmt.Sprintf("rle-dec bitpacked %d %s", w, hexS)}
+	if st != "" {
+		ctx.Fail("L1", "bitpacked-decode-fails", "Go BIT_PACKED decoder fails on a byte string: "+st, detail)
+		return
+	}
+	n := 8 * len(stream) / w
+	b.ask(fmt.Sprintf("bitpacked.specdec %d %d %s", w, n, hexS), func(ans string) {
+		got, ok := c04rleParseVals(ans)
+		if !ok || len(dec) < n || !c04rleEqU32(got, dec[:n]) {
+			detail["spec_decoder"] = ans
+			ctx.Fail("L1", "bitpacked-decode-differs-from-spec", "Go BIT_PACKED decoder does not return the values the spec decoder reads from the same bytes", detail)
+		}
+	})
+	b.ask(fmt.Sprintf("bitpacked.godec %d %s", w, hexS), func(ans string) {
+		if ans != "ok "+core.JoinInts(dec) {
+			detail["model"] = ans
+			ctx.Fail("L2", "bitpacked-decode-mirror", "Go BIT_PACKED decoder differs from the Lean mirror of decodeLevels", detail)
+		}
+	})
 }
 
 // ---------------------------------------------------------------- malformed generator
@@ -1285,6 +1394,10 @@ func c04rleCorpusLine(ctx *core.Ctx, r *rand.Rand, bufs *c04rleBufs, b *c04rleBa
 		if !ok {
 			return
 		}
+		if t[1] == "bitpacked" {
+			c04rleBitpackedDecodeCase(ctx, r, bufs, b, w, stream)
+			return
+		}
 		if len(t) >= 5 {
 			c04rleForeignCase(ctx, r, bufs, b, c04rleCase{kind: t[1], w: w, tag: "corpus"}, parseVals(t[4]), stream)
 		} else {
@@ -1324,7 +1437,7 @@ func RunC04Rle(ctx *core.Ctx) {
 		return
 	}
 	nWorkers := 14
-	perWorker := ctx.Scale(9000, 80000)
+	perWorker := ctx.Scale(9000, 40000)
 	if ctx.Widen {
 		perWorker *= 3
 	}
@@ -1341,9 +1454,9 @@ func RunC04Rle(ctx *core.Ctx) {
 			r := ctx.Rand(fmt.Sprintf("c04rle/%d", wk))
 			b := &c04rleBatch{ctx: ctx, d: ctx.Driver()}
 			bufs := &c04rleBufs{}
-			if wk == 0 {
-				c04rleSystematic(ctx, r, bufs, b)
-			}
+			// the systematic part is dealt out case by case over the workers (it used to run on
+			// worker 0 alone, which made the thorough tier wait for one goroutine)
+			c04rleSystematic(ctx, r, bufs, b, wk, nWorkers)
 			var lastEnc []byte
 			lastKind, lastW := "levels", 1
 			for i := 0; i < perWorker; i++ {
@@ -1353,6 +1466,12 @@ func RunC04Rle(ctx *core.Ctx) {
 				}
 				if enc := c04rleEncodeCase(ctx, r, bufs, b, c); enc != nil {
 					lastEnc, lastKind, lastW = enc, c.kind, c.w
+				}
+				// a BOOLEAN page of another writer, built from a random run list: about one case in eight
+				if r.Intn(8) == 0 {
+					body, vals := c04rleForeignBoolRuns(r)
+					ctx.Hist("rle.foreign-bool-runs", c04rleLenClass(len(vals)))
+					c04rleForeignCase(ctx, r, bufs, b, c04rleCase{kind: "bool", tag: "foreign-runs"}, vals, c04rleWrap("bool", 1, body))
 				}
 				// malformed stream: about one case in three
 				if r.Intn(3) == 0 {
@@ -1383,7 +1502,12 @@ func RunC04Rle(ctx *core.Ctx) {
 }
 
 // c04rleSystematic: every kind x every width x every boundary length x every pattern once.
-func c04rleSystematic(ctx *core.Ctx, r *rand.Rand, bufs *c04rleBufs, b *c04rleBatch) {
+func c04rleSystematic(ctx *core.Ctx, r *rand.Rand, bufs *c04rleBufs, b *c04rleBatch, part, nparts int) {
+	idx := 0
+	mine := func() bool { // every nparts-th case of the enumeration belongs to this worker
+		idx++
+		return idx%nparts == part
+	}
 	lens := []int{0, 1, 7, 8, 9, 15, 16, 17, 24, 63, 64, 65}
 	for _, kind := range []string{"levels", "int32", "bool", "dict", "bitpacked"} {
 		for w := 0; w <= c04rleMaxW(kind); w++ {
@@ -1392,6 +1516,9 @@ func c04rleSystematic(ctx *core.Ctx, r *rand.Rand, bufs *c04rleBufs, b *c04rleBa
 			}
 			for _, n := range lens {
 				for _, pat := range c04rlePatterns {
+					if !mine() {
+						continue
+					}
 					c := c04rleCase{kind: kind, w: w, tag: pat, vals: c04rleValues(r, pat, w, n)}
 					if kind == "bool" || kind == "dict" {
 						c.w = 0
@@ -1411,6 +1538,9 @@ func c04rleSystematic(ctx *core.Ctx, r *rand.Rand, bufs *c04rleBufs, b *c04rleBa
 	var rec func(prefix []uint32, depth int)
 	rec = func(prefix []uint32, depth int) {
 		for _, tl := range tails {
+			if !mine() {
+				continue
+			}
 			vals := append(append([]uint32(nil), prefix...), tl...)
 			for _, kw := range []struct {
 				kind string
@@ -1431,7 +1561,9 @@ func c04rleSystematic(ctx *core.Ctx, r *rand.Rand, bufs *c04rleBufs, b *c04rleBa
 	alpha := []uint32{0x00, 0xFF, 0x13, 0x14}
 	var recb func(prefix []uint32)
 	recb = func(prefix []uint32) {
-		c04rleEncodeCase(ctx, r, bufs, b, c04rleCase{kind: "bool", tag: "shapes", vals: append([]uint32(nil), prefix...)})
+		if mine() {
+			c04rleEncodeCase(ctx, r, bufs, b, c04rleCase{kind: "bool", tag: "shapes", vals: append([]uint32(nil), prefix...)})
+		}
 		if len(prefix) == ctx.Scale(5, 7) {
 			return
 		}
@@ -1441,5 +1573,8 @@ func c04rleSystematic(ctx *core.Ctx, r *rand.Rand, bufs *c04rleBufs, b *c04rleBa
 	}
 	recb(nil)
 	// the minimal input on which the AVX2 kernel segments differently from the portable code (F15)
+	if part != 0 {
+		return
+	}
 	c04rleEncodeCase(ctx, r, bufs, b, c04rleCase{kind: "int32", w: 1, tag: "f15", vals: []uint32{0, 1, 0, 1, 0, 1, 0, 1, 0, 0, 0, 0, 1, 1, 1, 1}})
 }
